@@ -37,6 +37,8 @@ for _f in sorted(glob.glob(os.path.join(os.path.dirname(os.path.abspath(__file__
 ENGINES = [
     {"name": "E1 clustersim", "path": "sim/sim", "serves_properties": ["C02"],
      "kind_free_text": "real rqlite nodes (store+raft+bbolt+SQLite+cluster service/client+proxy+mux) in one testing/synctest bubble over a simulated network; one event per scheduler step chosen by a seeded PRNG"},
+    {"name": "E3 walsim", "path": "sim/walsim", "serves_properties": ["C05", "C06"],
+     "kind_free_text": "one driver goroutine holding several connections (rqlite db.DB write connection + CheckpointManager, reader connections holding read marks) to one real WAL-mode SQLite database; a seeded schedule decides which connection acts next (writer transaction, reader start/stop, snapshot attempt, disk fault on a WAL copy); SQLite itself is the reference for applying WALs"},
 ]
 
 NOT_APPLICABLE = {
